@@ -50,6 +50,9 @@ def body(env, prog, conn):
     env.exit_funcs = []
     env.capturing = True  # what the library registers with atexit is collected, not registered
     env.nonblocking = False
+    env.lock_tag = ""
+    env.old = []  # earlier handles of this process, referenced from here only (see "drop_old_at")
+    env.cur = None
 
     def construct():
         if prog.get("unpickle"):
@@ -87,8 +90,12 @@ def body(env, prog, conn):
         importlib.reload(_ml)
         if route[0] == "configure":
             _mc.configure(SHARED_DIR=route[1])
+    from molli._aux.lock import rwlock as _rwl
+
+    env.mainlock = _rwl(prog["lib"]).name
+    env.construct = construct
     if not prog.get("sched_ctor"):
-        coll = construct()
+        env.cur = construct()
     conn.send(("ready",))
     msg = conn.recv()
     if msg[0] != "start":
@@ -97,7 +104,7 @@ def body(env, prog, conn):
     if prog.get("sched_ctor"):
         # the handle is created under the scheduler: two processes may race to create the library
         try:
-            coll = construct()
+            env.cur = construct()
         except BaseException as ex:
             env.active = False
             prev = env.prev
@@ -105,7 +112,7 @@ def body(env, prog, conn):
             conn.send(("done", [{"kind": "ctor", "puts": [], "puts_ok": [], "dup_rejected": [], "listed": None, "reads": {}, "exc": type(ex).__name__, "exc_msg": str(ex)[:80], "state_after": "idle", "file_closed_after": True, "fault_fired": False, "queue_after": 0}], prev))
             return
     for sess in prog["sessions"]:
-        log.append(do_session(env, coll, sess))
+        log.append(do_session(env, env.cur, sess))
     if prog.get("exits"):
         # the process terminates normally: what was registered with atexit runs now (under the
         # scheduler; an exit hook must not wait for a lock forever, so acquisitions do not block)
@@ -121,11 +128,62 @@ def body(env, prog, conn):
     env.exit_funcs = []
     env.capturing = False
     env.active = False
-    be = coll._backend
+    env.old = []
+    be = env.cur._backend
     be._write_queue.clear()
     prev = env.prev
     env.prev = None
     conn.send(("done", log, prev))
+
+
+BODY_EXC = {
+    "body": lambda: schedx.InjectedFault("injected: body failed"),
+    # what is not an `Exception`: Ctrl-C in a process that survives it, a session inside an abandoned generator
+    # (GeneratorExit is what generator.close() raises at the yield), sys.exit() called inside a session
+    "body-kbi": lambda: KeyboardInterrupt("injected: interrupted"),
+    "body-genexit": lambda: GeneratorExit("injected: generator abandoned"),
+    "body-sysexit": lambda: SystemExit(3),
+}
+
+
+def _body_faults(env):
+    for kind, mk in BODY_EXC.items():
+        if env.fault_here(kind):
+            raise mk()
+
+
+def _between(env, sess, e, j):
+    """what the program does between the puts of a session, at position j"""
+    if sess.get("drop_old_at") == j:
+        # the last references to the handles used earlier disappear now, in the middle of this session
+        import gc
+
+        env.old.clear()
+        gc.collect()
+    inner = sess.get("inner")
+    if inner and inner["at"] == j:
+        # a complete session on ANOTHER library, nested inside this one
+        r = {"kind": inner["kind"], "puts": inner.get("puts", []), "puts_ok": [], "listed": None, "exc": None}
+        env.lock_tag = "@inner"
+        try:
+            c2 = getattr(env, "coll2", None)
+            if c2 is None or getattr(env, "coll2_path", None) != inner["lib2"]:
+                c2 = Collection(inner["lib2"], UkvCollectionBackend, readonly=False, bufsize=BUFS["large"])
+                env.coll2, env.coll2_path = c2, inner["lib2"]
+            if inner["kind"] == "W":
+                with c2.writing():
+                    for k, v in inner["puts"]:
+                        c2[k] = v
+                        r["puts_ok"].append(k)
+            else:
+                with c2.reading():
+                    r["listed"] = sorted(c2.keys())
+        except Exception as ex:
+            r["exc"] = type(ex).__name__
+            r["exc_msg"] = str(ex)[:80]
+        finally:
+            env.lock_tag = ""
+        e["inner"] = r
 
 
 def do_session(env, coll, sess):
@@ -136,6 +194,16 @@ def do_session(env, coll, sess):
             c2 = Collection(sess["lib2"], UkvCollectionBackend, readonly=False, bufsize=BUFS["large"])
             env.coll2, env.coll2_path = c2, sess["lib2"]
         coll = c2
+    if sess.get("fresh_handle"):
+        # the process goes on with a NEW handle on the library (constructed - or unpickled - now); the one used
+        # so far is no longer referenced by the program, except from env.old until "drop_old_at"
+        env.old.append(coll)
+        env.lock_tag = "@inner"  # the constructor's own brief write lock is not a session
+        try:
+            coll = env.construct()
+        finally:
+            env.lock_tag = ""
+        env.cur = coll
     env.begin_session(sess.get("fault"))
     e = {"kind": sess["kind"], "puts": sess.get("puts", []), "puts_ok": [], "dup_rejected": [], "listed": None, "reads": {}, "exc": None}
     timeout = 0 if sess.get("timeout") else None
@@ -155,9 +223,9 @@ def do_session(env, coll, sess):
                             e["reads"][k] = coll[k]
                         except Exception as ex:
                             e["reads"][k] = ("EXC", type(ex).__name__)
-                for k, v in sess["puts"]:
-                    if env.fault_here("body"):
-                        raise schedx.InjectedFault("injected: body failed")
+                for j, (k, v) in enumerate(sess["puts"]):
+                    _between(env, sess, e, j)
+                    _body_faults(env)
                     if env.fault_here("poison"):
                         # an item the backend can never write (text where bytes are required): every attempt fails
                         coll[k + "-poison"] = "text, not bytes"
@@ -170,11 +238,12 @@ def do_session(env, coll, sess):
                     else:
                         coll[k] = v
                     e["puts_ok"].append(k)
+                _between(env, sess, e, len(sess["puts"]))
         else:
             with coll.reading(timeout=timeout):
                 env.nonblocking = False
-                if env.fault_here("body"):
-                    raise schedx.InjectedFault("injected: body failed")
+                _body_faults(env)
+                _between(env, sess, e, 0)
                 ks = sorted(coll.keys())
                 e["listed"] = ks
                 for k in ks:
@@ -200,15 +269,51 @@ def do_session(env, coll, sess):
 # =================================================================================================
 # controller side: monitor + oracle
 # =================================================================================================
+def _lmode(info):
+    return str(info or "").split("@")[0].split(":")[0]
+
+
+def _lname(info):
+    info = str(info or "")
+    return info.split(":", 1)[1] if ":" in info else None
+
+
 class Monitor:
-    def __init__(self):
+    def __init__(self, lockpath=None):
         self.open = {}
         self.lock = {}
         self.violations = []
         self.events = []  # ("acq"|"rel", wid, mode)
+        self.lockpath = Path(lockpath) if lockpath else None
+        self.probes = 0
+
+    def before(self, wid, action, x):
+        """a worker that holds a lock (as far as its own calls tell) is about to act: a third process - this one -
+        must NOT be able to take a conflicting lock on the lock file now"""
+        label, info = action
+        if self.lockpath is None or wid not in self.lock or label == "lock?":
+            return
+        held = self.lock[wid]
+        path = self.lockpath.parent / (_lname(held) or self.lockpath.name)
+        import fcntl
+
+        try:
+            fd = os.open(path, os.O_RDWR)
+        except OSError:
+            return
+        try:
+            fcntl.lockf(fd, (fcntl.LOCK_SH if _lmode(held) == "excl" else fcntl.LOCK_EX) | fcntl.LOCK_NB)
+        except OSError:
+            self.probes += 1
+        else:
+            self.violations.append(("lock-lost-during-session", f"worker {wid} is inside a session ({_lmode(held)} lock, about to {label}) but another process can take a conflicting lock on the library's lock file"))
+        finally:
+            os.close(fd)
 
     def completed(self, wid, action, prev, x):
         label, info = action
+        if label in ("lock?", "unlock") and "@inner" in str(info or ""):
+            return  # a session on another library nested inside the current one (or a constructor in between)
         if label == "open":
             if prev and str(prev).startswith("opened:"):
                 self.open[wid] = info
@@ -222,8 +327,8 @@ class Monitor:
             if prev == "acquired":
                 self.lock[wid] = info
                 self.events.append(("acq", wid, info))
-                ex = [w for w, m in self.lock.items() if m == "excl"]
-                if ex and len(self.lock) > 1:
+                same = {w: m for w, m in self.lock.items() if _lname(m) == _lname(info)}
+                if any(_lmode(m) == "excl" for m in same.values()) and len(same) > 1:
                     self.violations.append(("lock-held-incompatibly", f"lock holders {sorted(self.lock.items())}"))
         elif label == "unlock":
             if prev == "unlocked":
@@ -266,11 +371,14 @@ class Bench:
     def reset_env(self):
         from molli._aux.lock import rwlock as _rw
 
-        for p in (self.lib2, _rw(self.lib2)):
-            try:
-                os.unlink(p)
-            except FileNotFoundError:
-                pass
+        for q in (self.root / "real" / "other.mlib", self.root / "real" / "LIB.mlib", self.lib2):
+            for p in (q, _rw(q)):
+                if Path(p) in (self.lib, Path(self.lockpath)):
+                    continue
+                try:
+                    os.unlink(p)
+                except FileNotFoundError:
+                    pass
         for p in (self.lib, self.lockpath):
             try:
                 os.unlink(p)
@@ -283,12 +391,17 @@ class Bench:
 
     def programs(self, spec):
         progs = []
+        # the second library of a process: another name, or the SAME name in another case (a different file)
+        names2 = [w["lib2name"] for w in spec if w.get("lib2name")]
+        self.lib2 = self.root / "real" / (names2[0] if names2 else "other.mlib")
         for wid, w in enumerate(spec):
             sp, cwd = self.spelled(wid, w["spelling"])
             ro = bool(w.get("ro"))
             for sdict in w["sessions"]:
                 if sdict.get("lib2"):
                     sdict["lib2"] = str(self.lib2)
+                if sdict.get("inner"):
+                    sdict["inner"]["lib2"] = str(self.lib2)
             progs.append({"lib": str(self.lib), "spelled": sp, "cwd": cwd, "ro": ro, "buf": w["buf"], "sessions": w["sessions"], "sched_ctor": bool(w.get("sched_ctor")), "exits": bool(w.get("exits")), "recreate": w.get("recreate"), "unpickle": self._blob() if w.get("unpickle") else None, "cfg_route": (w["cfg_route"], str(self.root / "site_shared")) if w.get("cfg_route") else None})
         if any(w.get("cfg_route") for w in spec):
             self.lockpath = self.root / "site_shared" / "lock" / self.lockpath.name
@@ -323,6 +436,10 @@ def _val(wid, si, j, seed):
 
 
 def fault_context(spec):
+    if any(s.get("inner") for w in spec for s in w["sessions"]):
+        return "session-on-another-library-nested-inside"
+    if any(s.get("fresh_handle") for w in spec for s in w["sessions"]):
+        return "earlier-handle-dropped-during-a-session[" + ("received-by-pickle" if any(w.get("unpickle") for w in spec) else "constructed") + "]"
     if any(s.get("lib2") for w in spec for s in w["sessions"]):
         return "two-libraries-in-one-process"
     if any(w.get("unpickle") for w in spec):
@@ -353,6 +470,13 @@ def judge(bench: Bench, spec, x: schedx.Execution):
     # a process that re-creates the library (constructor with overwrite=True, under the write lock) legitimately
     # discards everything stored before: sessions released before that moment are "dead"
     dead, reset_pos, new_comment = set(), None, b""
+    ev_sessions = {w: [si for si, e in enumerate(logs[w]) if not (e.get("gave_up") and e.get("exc") == "TimeoutError")] for w in range(bench.n)}
+
+    def smap(w, k):
+        if k < 0:
+            return k  # the constructor's own lock
+        return ev_sessions[w][k] if k < len(ev_sessions[w]) else len(logs[w]) + k
+
     recreators = [w for w in range(bench.n) if spec[w].get("recreate")]
     if recreators:
         cnt = {w: (-1 if spec[w].get("sched_ctor") and not spec[w].get("unpickle") else 0) for w in range(bench.n)}
@@ -363,7 +487,7 @@ def judge(bench: Bench, spec, x: schedx.Execution):
                     reset_pos = pos
                     new_comment = spec[wid]["recreate"].encode()
             else:
-                relpos[(wid, cnt[wid])] = pos
+                relpos[(wid, smap(wid, cnt[wid]))] = pos
                 cnt[wid] += 1
         if reset_pos is not None:
             dead = {ws for ws, pos in relpos.items() if pos < reset_pos}
@@ -448,6 +572,13 @@ def judge(bench: Bench, spec, x: schedx.Execution):
                 has2 = True
                 if e["exc"] is None:
                     exp2.update({k: v for k, v in e["puts"] if k in e["puts_ok"]})
+            if e.get("inner"):
+                has2 = True
+                r = e["inner"]
+                if r["exc"] is not None:
+                    out.append((f"session-raised[{r['exc']}]", f"worker {wid}: the session on the second library nested inside a session on the first one raised {r['exc']}: {r.get('exc_msg')}"))
+                else:
+                    exp2.update({k: v for k, v in r["puts"] if k in r["puts_ok"]})
     if has2:
         try:
             c2 = Collection(bench.lib2, UkvCollectionBackend, readonly=True)
@@ -497,9 +628,9 @@ def judge(bench: Bench, spec, x: schedx.Execution):
         if ev == "acq":
             if pos == reset_pos:
                 visible.clear()
-            snap[(wid, sidx[wid])] = set(visible)
+            snap[(wid, smap(wid, sidx[wid]))] = set(visible)
         else:
-            si = sidx[wid]
+            si = smap(wid, sidx[wid])
             if 0 <= si < len(logs[wid]):
                 e = logs[wid][si]
                 # only a session that completed commits its records for later readers; what a
@@ -562,7 +693,7 @@ def run_spec(ctx, bench: Bench, spec, bound, stats, max_viol=6):
     nviol = [0]
 
     def mon_factory():
-        m = Monitor()
+        m = Monitor(bench.lockpath)
         bench._mon = m
         return m
 
@@ -648,7 +779,7 @@ def plain_specs(ctx, nworkers, total_sessions, spellings, bufs):
     return specs
 
 
-FAULT_KINDS = ["body", "encoder", "write", "close", "open", "flush", "poison"]
+FAULT_KINDS = ["body", "encoder", "write", "close", "open", "flush", "poison", "body-kbi", "body-genexit", "body-sysexit"]
 
 
 def fault_specs(ctx, bufs_for_faulty):
@@ -661,6 +792,8 @@ def fault_specs(ctx, bufs_for_faulty):
                     for fk in FAULT_KINDS:
                         if faulty_kind == "R" and fk in ("encoder", "write", "flush", "poison"):
                             continue
+                        if fk.startswith("body-") and not ctx.thorough and (fk == "body-sysexit" or other == ("R",) or buf != ("dflt", "large")[len(after) % 2]):
+                            continue  # quick: a subset for the exceptions that are not `Exception`s
                         specs.append((buf, faulty_kind, after, other, fk))
     return specs
 
@@ -724,6 +857,45 @@ def twolib_specs(ctx):
                     if fk in ("write", "flush"):
                         ss[first1]["puts"] = [(k, bytes(400)) for k, _ in ss[first1]["puts"]]
                 specs.append([{"spelling": "abs", "buf": buf, "ro": False, "sessions": ss}])
+    return specs
+
+
+def nested_specs(ctx, spellings):
+    """worker 0 nests a complete session on ANOTHER library (same name in another case: a different file, a
+    different lock) inside a session on the library and goes on afterwards; worker 1 wants the library meanwhile"""
+    specs = []
+    for outer in ("W", "R"):
+        for ik in ("R", "W"):
+            for at in ((0, 1, 2) if outer == "W" else (0,)):
+                for k1 in (("W",), ("R",), ("D",)):
+                    for tail in ((), ("R",)):
+                        ss = mk_sessions(0, (outer,) + tail, ctx.seed)
+                        ss[0]["inner"] = {"kind": ik, "at": at, "puts": [(f"i{at}a", _val(8, at, 0, ctx.seed)), (f"i{at}b", _val(8, at, 1, ctx.seed))] if ik == "W" else []}
+                        specs.append([
+                            {"spelling": spellings[0], "buf": "dflt" if at % 2 else "large", "ro": False, "lib2name": "LIB.mlib", "sessions": ss},
+                            {"spelling": spellings[1 % len(spellings)], "buf": "dflt", "ro": False, "sessions": mk_sessions(1, k1, ctx.seed)},
+                        ])
+    return specs
+
+
+def dropped_specs(ctx, spellings):
+    """worker 1 tries a session with a timeout (it gives up when worker 0 is in a session), later goes on with a NEW
+    handle, and the handle of the failed attempt loses its last reference in the middle of the new handle's
+    session (a cache eviction, the cyclic garbage collector); handles constructed or received by pickle"""
+    specs = []
+    for unp in (False, True):
+        for k0 in (("W",), ("W", "W"), ("R", "W")):
+            for first in ("W", "R"):
+                for second, at in (("W", 0), ("W", 1), ("W", 2), ("R", 0)):
+                    ss = mk_sessions(1, (first, second), ctx.seed)
+                    ss[0]["timeout"] = True
+                    ss[1]["fresh_handle"] = True
+                    ss[1]["drop_old_at"] = at
+                    w0 = {"spelling": spellings[0], "buf": "dflt", "ro": False, "sessions": mk_sessions(0, k0, ctx.seed)}
+                    w1 = {"spelling": "abs" if unp else spellings[1 % len(spellings)], "buf": "large", "ro": False, "sessions": ss}
+                    if unp:
+                        w1.update(sched_ctor=True, unpickle=True)
+                    specs.append([w0, w1])
     return specs
 
 
@@ -856,7 +1028,7 @@ def part_model(sc, part):
             for wid, kinds in enumerate(progs_lock):
                 spec.append({"spelling": sp_all[(wid + sc.seed) % 3], "buf": ["dflt", "large"][wid % 2], "ro": False, "sessions": mk_sessions(wid, kinds, sc.seed)})
             progs = bench.programs(spec)
-            bench.ctl.monitor_factory = lambda: setattr(bench, "_mon", Monitor()) or bench._mon
+            bench.ctl.monitor_factory = lambda: setattr(bench, "_mon", Monitor(bench.lockpath)) or bench._mon
             x = bench.ctl.run(progs, [], bench.reset_env, chooser=TraceFollower(trace))
             x._events = list(bench._mon.events)
             sc.count(evaluations=1, traces=1, transitions=len(x.choices))
@@ -960,6 +1132,8 @@ def run(ctx):
         ctx.pmap(part_plain, [(2, 1, c) for c in chunks(mixed_specs(ctx, list(sp_q)), nproc)], nproc=nproc)
         ctx.pmap(part_plain, [(2, 2, c) for c in chunks(unpickle_specs(ctx, 2), nproc)], nproc=nproc)
         ctx.pmap(part_plain, [(1, 0, c) for c in chunks(twolib_specs(ctx), nproc)], nproc=nproc)
+        ctx.pmap(part_plain, [(2, 1, c) for c in chunks(nested_specs(ctx, list(sp_q)), nproc)], nproc=nproc)
+        ctx.pmap(part_plain, [(2, 1, c) for c in chunks(dropped_specs(ctx, list(sp_q)), nproc)], nproc=nproc)
         model_family(ctx, 2, beh2, nproc)
         ctx.bound = {"processes": 2, "sessions_total": 4, "preemptions": bound, "fault_family_preemptions": 1, "faults_per_execution": 1, "path_spellings": list(sp_q) + ["rel+sym in the fault family"]}
     else:
@@ -979,6 +1153,8 @@ def run(ctx):
         ctx.pmap(part_plain, [(2, 3, c) for c in chunks(unpickle_specs(ctx, 2), nproc)], nproc=nproc)
         ctx.pmap(part_plain, [(3, 2, c) for c in chunks(unpickle_specs(ctx, 3)[::3], nproc)], nproc=nproc)
         ctx.pmap(part_plain, [(1, 0, c) for c in chunks(twolib_specs(ctx), nproc)], nproc=nproc)
+        ctx.pmap(part_plain, [(2, 2, c) for c in chunks(nested_specs(ctx, sp2[:2]), nproc)], nproc=nproc)
+        ctx.pmap(part_plain, [(2, 3, c) for c in chunks(dropped_specs(ctx, sp2[:2]), nproc)], nproc=nproc)
         model_family(ctx, 2, beh2, nproc)
         model_family(ctx, 3, beh3, nproc)
         ctx.bound = {"processes": "2 (bound 3) and 3 (bound 2)", "sessions_total": "4 / 4", "fault_family_preemptions": 2, "faults_per_execution": 1, "path_spellings": sp2}
@@ -993,7 +1169,7 @@ def replay(ctx, case):
                 if "puts" in s:
                     s["puts"] = [(k, _unjson(v)) for k, v in s["puts"]]
         progs = bench.programs(spec)
-        bench.ctl.monitor_factory = lambda: setattr(bench, "_mon", Monitor()) or bench._mon
+        bench.ctl.monitor_factory = lambda: setattr(bench, "_mon", Monitor(bench.lockpath)) or bench._mon
         x = bench.ctl.run(progs, list(case["choices"]), bench.reset_env)
         x._events = list(bench._mon.events)
         verdicts = list(x.verdicts) or (judge(bench, spec, x) if len(x.logs) == bench.n else [])
